@@ -404,8 +404,10 @@ def install_step_wrapper(world):
             head = env._events[0]
             advancing = ctx.decide(ctx.z(head.time) > ctx.z(env.now))
         if advancing:
+            world.next_time = ctx.z(head.time)      # the instant the clock is about to jump to
             for m in world.monitors:
                 m.before_clock_advance()
+            world.next_time = None
         world.last_event = head
         real_step()
         for m in world.monitors:
@@ -931,6 +933,11 @@ class CycleMon(Monitor):
             for n, b in self.busy.items():
                 if b is not None and b['since'] is not None and w.dev[n]._part is b['part']:
                     ctx.require(self._left(b) > 0, 'part finished late: cycle time elapsed but the part is still in process when time advances', n)
+                    nt = getattr(w, 'next_time', None)
+                    if nt is not None:
+                        # the next event lies beyond the instant at which this part is due: nothing is scheduled to finish it then
+                        ctx.require(b['remaining'] - (nt - b['since']) >= 0,
+                                    'part finished late: the clock jumps past the instant at which its cycle time has elapsed', n)
 
     def _pacing(self):
         w, ctx = self.w, self.ctx
@@ -1625,6 +1632,19 @@ class RoutingMon(Monitor):
                 d.add_receive_part_callback(self._recv)
                 self.idle_since[n] = 0
         self.parallel = self.w.spec.get('idle_longest')      # list of parallel device names or None
+        if self.parallel is None:
+            # derived from the model: single-slot devices without resource needs fed by exactly the same upstream list, in a
+            # model without faults / blocking / rewiring (there "idle since" and the library's bookkeeping legitimately differ)
+            spec = w.spec
+            quiet = not any(op['k'] in ('shutdown', 'fail', 'armfail', 'restore', 'workorder', 'block', 'unblock', 'rewire', 'setattr')
+                            for op in spec.get('ops', []))
+            by_up = {}
+            for d in spec['devices']:
+                if d['k'] in ('handler', 'proc') and d.get('up') and not d.get('res') and not d.get('up_late'):
+                    by_up.setdefault(tuple(d['up']), []).append(d['name'])
+            sets = [v for v in by_up.values() if len(v) >= 2]
+            if quiet and len(sets) == 1 and not spec.get('pools'):
+                self.parallel = sets[0]
 
     def _recv(self, dev, part):
         w, ctx = self.w, self.ctx
@@ -1639,12 +1659,16 @@ class RoutingMon(Monitor):
                 self.sink_order[n].append(part)
             if self.parallel and n in self.parallel:
                 now = w.now()
+                stale = getattr(self, '_busy', {})
+
+                def since(x):      # a device that was busy after the previous event and is empty now became idle during this one
+                    return now if stale.get(x, False) else self.idle_since[x]
                 for o in self.parallel:
                     od = w.dev[o]
                     if o != n and od._part is None and od._output is None and od.is_operational() and not od.block_input:
-                        ctx.require(self.idle_since[n] <= self.idle_since[o],
+                        ctx.require(since(n) <= since(o),
                                     'part went to a parallel device although another one had been idle longer', f'{n} instead of {o}')
-                        ctx.goal_if('idle_longest_decided', self.idle_since[n] < self.idle_since[o])
+                        ctx.goal_if('idle_longest_decided', since(n) < since(o))
 
     def before_op(self, i, op):
         if op['k'] in ('block', 'unblock'):
